@@ -208,6 +208,8 @@ def check(ctx):
 
     csr_key_origin_rule(ctx, ctx.rule("R7", "the CSR key has one origin, get_key_pair, whose new-key flag decides the key write: a key produced anywhere else on the way to the CSR (a retry with a fresh key) needs a flag that can change with it"))
 
+    parser_input_rule(ctx, ctx.rule("R8", "the bytes validated are the bytes stored: X509Certificate::from_pem hands its argument to the OpenSSL parser unchanged (a lenient pre-processing would accept a body the stored file's readers reject)"))
+
     R5 = ctx.rule("R5", "a rewritten certificate/key file holds the new content only: opened with truncate(true)|create_new(true), never append (shared with C02.R1) — a longer old chain must not leave a tail that makes the file unparsable")
     from .c02 import open_rule
     open_rule(ctx, R5)
@@ -252,6 +254,29 @@ def csr_key_origin_rule(ctx, R7):
         ctx.require(R7, bool(stores) and guarded and len(t_all) > len(t_pure), c.where(),
                     "the CSR key can also come from %s, but the key write is decided by get_key_pair's flag alone: a certificate for the replacement key would be installed beside the old key file" % ", ".join(o.rsplit("::", 1)[1] for o in others),
                     [RC, "csr-key-second-origin"])
+
+
+IDENTITY_CALLS = ("as_ref", "as_bytes", "as_slice", "deref", "borrow", "to_vec", "to_owned", "clone", "into", "from", "as_str", "to_string", "into_bytes", "as_mut")
+
+
+def parser_input_rule(ctx, R8):
+    """request_certificate validates the download with from_pem and stores the RAW body (C02.R3). The two agree only when
+    from_pem parses what it was given: every call on the provenance of the OpenSSL parser's argument must be an identity
+    view/copy of the parameter (as_ref, to_vec, ...). A trimming/re-joining/lossy-decoding step means a body can be accepted
+    that is not what gets written."""
+    prog = ctx.prog
+    b = prog.body(FROMPEM)
+    if b is None:
+        ctx.fail(R8, "acme_common/src/crypto/openssl_certificate.rs", "X509Certificate::from_pem not found", [FROMPEM, "missing"])
+        return
+    ps = [c for c in b.calls if c.name and c.name.startswith("openssl::x509::X509::") and c.name.rsplit("::", 1)[1] in ("from_pem", "stack_from_pem", "from_der")]
+    ctx.floor(R8, "OpenSSL certificate parser call in X509Certificate::from_pem", len(ps), 1)
+    for c in ps:
+        sl = arg_origins(c, 0)
+        ctx.require(R8, sl.has_leaf("param:1"), c.where(), "the OpenSSL parser receives from_pem's argument", [FROMPEM, "parser-input-not-argument"])
+        odd = sorted({(x.name or x.fn or "?") for x in sl.calls if (x.name or x.fn or "?").rsplit("::", 1)[-1].split("<")[0] not in IDENTITY_CALLS})
+        ctx.require(R8, not odd, c.where(), "the parsed bytes are the argument itself, not a transformed copy%s" % ((" (through %s)" % ", ".join(odd[:4])) if odd else ""),
+                    [FROMPEM, "parser-input-transformed"])
 
 
 def no_discarded_results(ctx):
